@@ -220,6 +220,38 @@ SitesThorough(x) ==
     \cup Sites({AscSeq(S) : S \in Sets3} \cup {<<"c", "a", "b">>, <<"type", "b", "a">>},
                FeatsAll \ {"lo_optsome", "hi_cfgon", "cfgon", "optsome"}, 3)
 
+-----------------------------------------------------------------------------
+(* large collections: more than a handful of properties, so that buffers, sorts and
+   searches inside the implementation leave their small-input paths *)
+
+\* "k001" .. "k200": byte order = numeric order
+Pad3(i) == IF i < 10 THEN "k00" \o ToString(i) ELSE IF i < 100 THEN "k0" \o ToString(i) ELSE "k" \o ToString(i)
+MC_KeyOrderBig == [i \in 1..200 |-> Pad3(i)]
+
+\* the keys of a large collection of n properties; values are b+1 .. b+n in this order
+BigKeys(n, pattern) ==
+    CASE pattern = "distinct" -> [i \in 1..n |-> i]                       \* ascending, all distinct
+      [] pattern = "desc" -> [i \in 1..n |-> n + 1 - i]                   \* descending, all distinct
+      [] pattern = "adjacent" -> [i \in 1..n |-> (i + 1) \div 2]          \* every key twice, adjacent
+      [] pattern = "far" -> [i \in 1..n |-> ((i - 1) % (n \div 2)) + 1]    \* every key twice, half apart
+      [] pattern = "fardesc" -> [i \in 1..n |-> (n \div 2) - ((i - 1) % (n \div 2))]
+      [] pattern = "hot" -> [i \in 1..n |-> IF i % 2 = 1 THEN 7 ELSE 7 + i \div 2] \* one key n/2 times, interleaved
+
+Big(op, n, pattern, b) == [op |-> op, kvs |-> KVs(BigKeys(n, pattern), b)]
+
+BigSizes == {21, 33, 64, 200}
+BigLeaves ==
+    {Big("slice", n, p, 0) : n \in BigSizes, p \in {"distinct", "desc", "adjacent", "far", "fardesc", "hot"}}
+    \cup {Big(o, n, "desc", 0) : o \in {"btree", "hash", "ctxt"}, n \in {21, 64}}
+
+\* a few joins (both sides large, a map on one side, a small one on one side)
+BigJoins ==
+    {[op |-> "and", l |-> Big("slice", n, "far", 0), r |-> Big("slice", n, "hot", 1000)] : n \in {21, 33}}
+    \cup {[op |-> "and", l |-> Big("hash", 33, "desc", 0), r |-> Big("slice", 33, "fardesc", 1000)],
+          [op |-> "and", l |-> Big("slice", 64, "adjacent", 0), r |-> Big("btree", 64, "distinct", 1000)],
+          [op |-> "and", l |-> [op |-> "pair", kvs |-> KVs(<<5>>, 2000)], r |-> Big("slice", 33, "far", 0)],
+          [op |-> "and", l |-> Big("slice", 21, "distinct", 0), r |-> Big("slice", 21, "desc", 1000)]}
+
 \* modes: <<pool, depth of the seeds>>; the explored trees of a mode have one more level
 ModesFor(w) ==
     CASE w = "trees_tiny" -> <<<<"small", 0>>>>
@@ -229,22 +261,26 @@ ModesFor(w) ==
 
 IsSites == Which \in {"sites_quick", "sites_thorough"}
 
-MC_NModes == IF IsSites \/ Which = "views" THEN 1 ELSE Len(ModesFor(Which))
+MC_NModes == IF IsSites \/ Which \in {"views", "big"} THEN 1 ELSE Len(ModesFor(Which))
 MC_Seeds(m) ==
-    IF Which = "views" THEN AllViews \cup {[op |-> o, t |-> x] : o \in {"dedup", "erased"}, x \in AllViews}
+    IF Which = "big" THEN BigLeaves \cup BigJoins
+    ELSE IF Which = "views" THEN AllViews \cup {[op |-> o, t |-> x] : o \in {"dedup", "erased"}, x \in AllViews}
                             \cup {[op |-> "and", l |-> x, r |-> y] : x \in ViewRights(70), y \in AllViews}
     ELSE IF IsSites THEN (IF Which = "sites_quick" THEN SitesQuick(0) ELSE SitesThorough(0))
     ELSE T(ModesFor(Which)[m][1], ModesFor(Which)[m][2], 0) \cup {[op |-> "none"]}
 MC_Rights(m) ==
-    IF Which = "views" THEN ViewRights(80)
+    IF Which = "big" THEN {[op |-> "pair", kvs |-> KVs(<<7>>, 3000)]}
+    ELSE IF Which = "views" THEN ViewRights(80)
                             \cup {[op |-> "span", t |-> [op |-> "pair", kvs |-> KVs(<<KEvtKind>>, 90)]],
                                   [op |-> "metric", t |-> [op |-> "arr", kvs |-> KVs(<<KMetricValue, KEvtKind>>, 90)]]}
     ELSE IF IsSites THEN {}
     ELSE T(ModesFor(Which)[m][1], ModesFor(Which)[m][2], Width(ModesFor(Which)[m][2]))
 MC_Wraps(m) ==
-    IF IsSites THEN {} ELSE IF Which = "views" THEN Unary \cup {"span", "metric"} ELSE Unary
+    IF Which = "big" THEN {"dedup", "erased", "asmap", "box", "opt"}
+    ELSE IF IsSites THEN {} ELSE IF Which = "views" THEN Unary \cup {"span", "metric"} ELSE Unary
 
 MC_KeyOrder ==
     IF Which \in {"sites_quick", "sites_thorough"} THEN MC_KeyOrderSites
-    ELSE IF Which = "views" THEN MC_KeyOrderViews ELSE MC_KeyOrderTrees
+    ELSE IF Which = "views" THEN MC_KeyOrderViews
+    ELSE IF Which = "big" THEN MC_KeyOrderBig ELSE MC_KeyOrderTrees
 =============================================================================
